@@ -81,6 +81,27 @@ def invariant(a):
     return None
 
 
+F14D_SITES = ("customasm::util::bigint::BigInt::", "customasm::util::bitvec")
+
+
+def f14d_abort(a):
+    """the recorded finding F14d, identified by how and where the process dies: an allocation failure
+    (not a panic, not a stack overflow) inside the size-driven loops of util::bigint / util::bitvec"""
+    if not a.get("died"):
+        return False
+    err = str(a.get("stderr", ""))
+    return "memory allocation of" in err and any(s in err for s in F14D_SITES)
+
+
+def report(chk, a, bad, inp):
+    known = {k["id"]: k for k in fw.known_findings("C03") if k["status"] == "open"}
+    if "F14d" in known and f14d_abort(a):
+        chk.known("F14d", known["F14d"]["observed"])
+        chk.count("allocation_abort_F14d")
+    else:
+        chk.violate(bad.split(":")[0], inp, "success without error, or failure with an error and no output", bad)
+
+
 def run(chk):
     rng = chk.rng
     thorough = chk.tier == "thorough"
@@ -95,11 +116,13 @@ def run(chk):
     chk.count("corpus_files", len(base))
     # ---------------- (1) in-process mutation stream
     n = 200000 if thorough else 16000
-    muts = []
+    # the witnesses of the recorded findings run first
+    muts = [k["replay"]["program"] for k in fw.known_findings("C03") if k["status"] == "open" and isinstance(k.get("replay"), dict) and "program" in k["replay"]]
     for _ in range(n):
         src = rng.choice(base) if rng.random() < 0.6 else rng.choice(gens)
         muts.append(mutate(rng, src) if rng.random() < 0.93 else src)
     ops = [fw.asm_op([("main.asm", m)], max_iter=rng.choice([10, 10, 3, 2, 1]), opt_s=rng.random() < 0.8, opt_m=rng.random() < 0.8) for m in muts]
+    ops[:len(muts) - n] = [fw.asm_op([("main.asm", m)]) for m in muts[:len(muts) - n]]
     impl = fw.run_oracle_resilient(ops, "c03m", timeout=3000)
     for m, op, a in zip(muts, ops, impl):
         chk.evaluations += 1
@@ -111,7 +134,7 @@ def run(chk):
         if a.get("iters") is not None or a.get("nerrors", 0) > 0:
             chk.nontriv(m)
         if bad:
-            chk.violate(bad.split(":")[0], {"program": m, "op_options": op.split(" ")[1:4]}, "success without error, or failure with an error and no output", bad)
+            report(chk, a, bad, {"program": m, "op_options": op.split(" ")[1:4]})
     chk.sample({"mutant": muts[0][:300], "answer": {k: impl[0].get(k) for k in ("error", "nerrors", "iters")}})
     chk.traces += len(ops)
 
@@ -136,7 +159,7 @@ def run(chk):
         bad = invariant(a)
         chk.count("typed_ok" if a.get("output") is not None else "typed_err")
         if bad:
-            chk.violate(bad.split(":")[0], {"program": t}, "success without error, or failure with an error and no output", bad)
+            report(chk, a, bad, {"program": t})
     chk.traces += len(tops)
 
     # ---------------- (2) driver with defines, budgets, switches, faults
@@ -221,7 +244,8 @@ def run(chk):
             err = b"error" in r.stderr
             made = sorted(f for f in os.listdir(d) if f != "main.asm")
             if r.returncode not in (0, 1):
-                chk.violate("real binary ended abnormally", {"program": m}, "exit 0 or 1", "exit %d: %s" % (r.returncode, r.stderr[-300:].decode(errors="replace")))
+                report(chk, {"died": True, "stderr": r.stderr.decode(errors="replace")},
+                       "real binary ended abnormally: exit %d: %s" % (r.returncode, r.stderr[-300:].decode(errors="replace")), {"program": m})
             elif r.returncode == 0 and (err or made != ["out.bin", "sym.txt"]):
                 chk.violate("exit 0 with an error message or missing files", {"program": m}, "clean success", {"stderr": r.stderr[-200:].decode(errors="replace"), "files": made})
             elif r.returncode == 1 and (not err or made):
